@@ -118,6 +118,20 @@ func (rw *RepoWalker) CollectFiles(t *object.Tree, branch string, ig *ignore.Mat
 		if err == io.EOF {
 			break
 		}
+		if err != nil {
+			if entry.Name != "" {
+				// go-git refuses this entry (for example a control character
+				// in its name) and carries on with the next one. It hands back
+				// an empty path: handling the entry would index the file under
+				// the empty name.
+				log.Printf("skipping tree entry %q of branch %q: %v", entry.Name, branch, err)
+				continue
+			}
+			// Any other error (a tree nested deeper than go-git's limit, an
+			// unreadable tree) is returned again by every further call: do not
+			// spin on it.
+			return nil, fmt.Errorf("walking the tree of branch %q: %w", branch, err)
+		}
 		if err := rw.handleEntry(name, &entry, branch, subRepoVersions, ig); err != nil {
 			return nil, fmt.Errorf("handleEntry: %w", err)
 		}
